@@ -179,37 +179,54 @@ def run(ctx):
     ctx.counters["reply_sites"] = len(wr)
     ctx.floor("reply_sites", 1, "reply write in processMsg")
 
-    # ------------------------------------------------ protocol table
-    cb = {}
-    for b in pm.cfg:
-        l = b.get("label")
-        if l and l["k"] == "case":
-            cb[l.get("val")] = b["id"]
-        elif l and l["k"] == "default":
-            cb["default"] = b["id"]
-    want = {ord("g"): "getAll", ord("r"): "reset", ord("0"): None}
-    ctx.check(set(cb) == set(want) | {"default"}, "protocol:cases", "switch_table", pm.loc(),
-              "request switch has exactly the cases g, r, 0 and default", "request switch has cases %s" % sorted(map(str, cb)))
-    sw = [i for i in pm.all("switch")]
-    ctx.check(len(sw) == 1 and pm.text(pm.nodes[sw[0]]["c"]) == "mode", "protocol:scrutinee", "switch_table", pm.loc(), "switch on the first request byte",
-              "switch scrutinee is not 'mode'")
+    # ------------------------------------------------ protocol table (switch or if-chain on the first request byte)
     full = Flow(P, pm, cg=cg)
+    G, R, Z = ord("g"), ord("r"), ord("0")
+
+    def in_case(g, c):
+        return any(k == "mode" and p == "case:%d" % c for k, p in g)
+
+    def unknown(g):
+        return any(k == "mode" and p == "default" for k, p in g) or all(any(k == "mode" and p == "not:%d" % c for k, p in g) for c in (G, R, Z))
+    sw = [i for i in pm.all("switch")]
+    if sw:
+        cb = {}
+        for b_ in pm.cfg:
+            l = b_.get("label")
+            if l and l["k"] == "case":
+                cb[l.get("val")] = b_["id"]
+            elif l and l["k"] == "default":
+                cb["default"] = b_["id"]
+        ctx.check(set(cb) == {G, R, Z, "default"}, "protocol:cases", "switch_table", pm.loc(),
+                  "request switch has exactly the cases g, r, 0 and default", "request switch has cases %s" % sorted(map(str, cb)))
+        ctx.check(len(sw) == 1 and pm.text(pm.nodes[sw[0]]["c"]) == "mode", "protocol:scrutinee", "switch_table", pm.loc(), "switch on the first request byte",
+                  "switch scrutinee is not 'mode'")
+    else:
+        tested = set()
+        for b_ in pm.cfg:
+            for j in range(len(b_["succ"])):
+                for k, p in full.edge_facts(b_["id"], j):
+                    if k == "mode" and isinstance(p, str) and p.startswith("case:"):
+                        tested.add(p[5:])
+        ctx.check(tested == {str(G), str(R), str(Z)}, "protocol:cases", "switch_table", pm.loc(), "the first request byte is compared with exactly g, r and 0",
+                  "the first request byte is compared with %s" % sorted(tested))
+        ctx.ok("protocol:scrutinee", "switch_table", pm.loc(), "if-chain on the first request byte")
     for i in pm.calls("Stats::getAll"):
-        ctx.check(any(p == "case:%d" % ord("g") for k, p in full.guards(i)), "protocol:g-reads-all", "switch_table", pm.loc(i), "'g' returns all counters", "getAll outside case 'g'")
+        ctx.check(in_case(full.guards(i), G), "protocol:g-reads-all", "switch_table", pm.loc(i), "'g' returns all counters", "getAll outside case 'g'")
     for i in pm.calls("Stats::reset"):
-        ctx.check(any(p == "case:%d" % ord("r") for k, p in full.guards(i)), "protocol:r-resets", "switch_table", pm.loc(i), "'r' resets", "reset outside case 'r'")
+        ctx.check(in_case(full.guards(i), R), "protocol:r-resets", "switch_table", pm.loc(i), "'r' resets", "reset outside case 'r'")
     errw = [i for i, n in enumerate(pm.nodes) if n["k"] == "call" and n.get("op") == "=" and "recv" in n and 'root["error"]' in pm.text(n["recv"]).replace("root.operator[]", "root[")
             or (n["k"] == "call" and n.get("op") == "=" and "recv" in n and "error" in pm.text(n["recv"]) and "root" in pm.text(n["recv"]))]
     e1 = [i for i in errw if pm.text(pm.nodes[i]["args"][0]).endswith("1)") or pm.text(pm.nodes[i]["args"][0]) in ("1", "Json::Value(1)")]
-    ctx.check(len(e1) == 1 and any(p == "default" for k, p in full.guards(e1[0])), "protocol:unknown-is-error-1", "switch_table",
-              pm.loc(e1[0]) if e1 else pm.loc(), "unknown requests get error 1 (default case only)", "error 1 is not tied to the default case")
+    ctx.check(len(e1) == 1 and unknown(full.guards(e1[0])), "protocol:unknown-is-error-1", "switch_table",
+              pm.loc(e1[0]) if e1 else pm.loc(), "unknown requests get error 1 (and only they)", "error 1 is not tied to 'none of g, r, 0'")
     # mode is the first byte read
     for w in local_writes(pm, "mode"):
         g = full.guards(w)
         ctx.check(pm.text(write_rhs(pm, w)) == "byte_buf" and any(k in ("(0 == num_read)", "(num_read == 0)") and p is True for k, p in g),
                   "protocol:mode-is-first-byte", "guarded_by", pm.loc(w), "the request type is the first byte", "mode assigned under %s" % sorted(g, key=str))
     # bounded read
-    ls = [l for l in loops(pm) if l["stmt"] is not None and pm.nodes[l["stmt"]]["k"] == "for" and "num_read" in loop_header(pm, l)]
+    ls = [l for l in loops(pm) if l["stmt"] is not None and pm.nodes[l["stmt"]]["k"] in ("for", "while") and "num_read" in loop_header(pm, l)]
     okb = len(ls) == 1 and re.search(r"\(num_read < (\d+)\)", loop_header(pm, ls[0])) is not None
     bound = int(re.search(r"\(num_read < (\d+)\)", loop_header(pm, ls[0])).group(1)) if okb else None
     reads = pm.calls("read")
@@ -298,6 +315,11 @@ def run(ctx):
         ok = ok and X(rsf.nodes[i]["args"][0]) == "elem(this->stats_).first"
     zero = [i for i, n in enumerate(rsf.nodes) if n["k"] == "bin" and n["op"] == "=" and "stats_[" in rsf.text(n["l"])]
     ok = ok and all(rsf.text(rsf.nodes[z]["r"]) == "0" for z in zero) and bool(zero)
+    if not muts and not zero:
+        # iterator spelling: for (auto it = stats_.begin(); ...; ++it) it->second = 0;
+        aw_ = alias_write_nodes(rsf, "Oomd::Stats::stats_")
+        ok = bool(aw_) and all(rsf.nodes[a_]["k"] == "bin" and rsf.nodes[a_].get("op") == "=" and rsf.text(rsf.nodes[a_]["r"]) == "0" and
+                               rsf.text(rsf.nodes[a_]["l"]).endswith("->second") for a_ in aw_)
     ctx.check(ok, "reset-zeroes-existing-keys", "value-shape", rsf.loc(), "reset assigns 0 to every key it iterates and nothing else",
               "reset mutates the map otherwise: " + str([(nm, X(rsf.nodes[i]["args"][0]) if rsf.nodes[i].get("args") else "") for i, nm in muts]))
 
